@@ -121,14 +121,14 @@ Query(op, d, s) ==
                  [] op = "legendre" -> IF TIsZero(F, K, regs[d]) THEN 0
                                        ELSE IF TIsSquare(F, K, regs[d]) THEN 1 ELSE -1]
 
-\* square root as a RELATION: any root may be returned; "none" exactly for non-squares
-Sqrt(d, y) == \/ /\ TIsSquare(F, K, regs[d])
-                 /\ TIsElem(F, K, y) /\ TSqr(F, K, y) = regs[d]
-                 /\ regs' = [regs EXCEPT ![d] = y]
-                 /\ ev' = [op |-> "sqrt", d |-> d, ret |-> "some"]
-              \/ /\ ~TIsSquare(F, K, regs[d])
-                 /\ UNCHANGED regs
-                 /\ ev' = [op |-> "sqrt", d |-> d, ret |-> "none"]
+\* square root as a RELATION: any root may be returned; "none" exactly for non-squares.
+\* y is the value handed back (ignored when the answer is "none").
+SqrtOK(d, some, y) == IF TIsSquare(F, K, regs[d])
+                      THEN some /\ TIsElem(F, K, y) /\ TSqr(F, K, y) = regs[d]
+                      ELSE ~some
+Sqrt(d, some, y) == /\ SqrtOK(d, some, y)
+                    /\ regs' = [regs EXCEPT ![d] = IF some THEN y ELSE @]
+                    /\ ev' = [op |-> "sqrt", d |-> d, ret |-> IF some THEN "some" ELSE "none"]
 
 ----------------------------------------------------------------------------
 (* prime-field-only conversions (K = 0) *)
